@@ -2,7 +2,7 @@ From Coq Require Import Extraction ExtrOcamlBasic.
 From Tele Require Import Lib.FS Model.Span Model.Uploader.
 Extraction Language OCaml.
 Extraction "upload_model.ml" step run init_state new_thread mkCfg mkCF mkFS mkSt
-  s_fs s_log s_ths f_local f_upload sums quiescent finished
+  s_fs s_log s_ths f_local f_upload sums week_reports_ok quiescent finished
   a_week a_body a_out a_by r_week r_last r_up r_files t_pc t_killed
   local_name ready_name marker_name lock_name is_count is_localrep is_json collect_ready
   before_start after_start uploader_week acks_once two_bodies acked_twice count200 not_needed fdate re_date in_future today.
